@@ -61,6 +61,9 @@ def name_ref(draw, profile="json", role="id", spellings=("qn", "qn", "str", "bar
     local = draw(local_part(profile, role))
     prefix = draw(st.sampled_from(PREFIXES + PREFIXES + (["", "xsd", "prov"] if profile not in ("rdf", "io") else [])))
     as_ = draw(st.sampled_from(spellings))
+    if role == "attr" and profile not in ("rdf", "io") and draw(st.integers(0, 24)) == 0:
+        # an application attribute that lives in the XML Schema namespace itself (built-in prefix, never declared)
+        return {"ns": spec.XSD_NS, "local": draw(st.sampled_from(["maxLength", "pattern", "token"])), "prefix": "xsd", "as": as_ if as_ in ("qn", "str") else "qn"}
     return {"ns": ns, "local": local, "prefix": prefix, "as": as_}
 
 
